@@ -338,6 +338,29 @@ func (p *Program) resolveValue(fi *FuncInfo, e ast.Expr, depth int) (*FuncInfo, 
 	// parameter of a private helper with one call site
 	if v, isVar := obj.(*types.Var); isVar && fi.Obj != nil && !fi.Obj.Exported() {
 		sig := fi.Obj.Type().(*types.Signature)
+		// the receiver of a private method with one call site: the expression the method is called on
+		if sig.Recv() == v && neverAssigned(info, fi.Decl.Body, obj) {
+			var site *ast.CallExpr
+			var siteFn *FuncInfo
+			n := 0
+			for _, caller := range p.SortedFuncs() {
+				if caller.Decl.Body == nil || caller.Pkg != fi.Pkg {
+					continue
+				}
+				for _, c := range callsIn(caller.Decl.Body) {
+					if fn := calleeOf(caller.Pkg.TypesInfo, c); fn != nil && p.FuncOf(fn) == fi {
+						n++
+						site, siteFn = c, caller
+					}
+				}
+			}
+			if n == 1 {
+				if rx := recvExpr(site); rx != nil {
+					return p.resolveValue(siteFn, rx, depth+1)
+				}
+			}
+			return fi, e
+		}
 		for i := 0; i < sig.Params().Len(); i++ {
 			if sig.Params().At(i) != v {
 				continue
